@@ -240,6 +240,11 @@ func (st *State) loadBytes(addr *smt.Term, n int) []*smt.Term {
 
 // urange: a sound unsigned over-approximation [lo,hi] of a term's value.
 func urange(t *smt.Term, depth int) (lo, hi uint64) {
+	return urangeD(t, depth, nil)
+}
+
+// urangeD: urange with per-variable byte domains (implied by the path condition).
+func urangeD(t *smt.Term, depth int, dom map[uint32]*[4]uint64) (lo, hi uint64) {
 	full := ^uint64(0)
 	if t.W < 64 {
 		full = (uint64(1) << t.W) - 1
@@ -247,10 +252,43 @@ func urange(t *smt.Term, depth int) (lo, hi uint64) {
 	if t.IsConst() {
 		return t.V, t.V
 	}
-	if depth > 8 {
+	if depth > 40 {
 		return 0, full
 	}
+	urange := func(x *smt.Term, d int) (uint64, uint64) { return urangeD(x, d, dom) }
 	switch t.Op {
+	case smt.OpVar:
+		if dom != nil && t.W == 8 {
+			if d := dom[t.ID]; d != nil {
+				lo, hi = 255, 0
+				for x := 0; x < 256; x++ {
+					if d[x>>6]&(1<<(uint(x)&63)) != 0 {
+						if uint64(x) < lo {
+							lo = uint64(x)
+						}
+						if uint64(x) > hi {
+							hi = uint64(x)
+						}
+					}
+				}
+				if lo <= hi {
+					return lo, hi
+				}
+			}
+		}
+		return 0, full
+	case smt.OpExtract:
+		if t.V&0xff == 0 {
+			l, h := urange(t.A, depth+1)
+			if h <= full {
+				return l, h
+			}
+		}
+		return 0, full
+	case smt.OpConcat:
+		la, ha := urange(t.A, depth+1)
+		lb, hb := urange(t.B, depth+1)
+		return la<<t.B.W | lb, ha<<t.B.W | hb
 	case smt.OpURem:
 		if t.B.IsConst() && t.B.V > 0 {
 			_, h := urange(t.A, depth+1)
@@ -304,6 +342,13 @@ func urange(t *smt.Term, depth int) (lo, hi uint64) {
 		}
 	case smt.OpAdd:
 		l1, h1 := urange(t.A, depth+1)
+		if t.B.IsConst() && t.B.V > full/2 {
+			k := (full - t.B.V) + 1 // x - k
+			if l1 >= k {
+				return l1 - k, h1 - k
+			}
+			return 0, full
+		}
 		l2, h2 := urange(t.B, depth+1)
 		if h1 <= full-h2 {
 			return l1 + l2, h1 + h2
